@@ -7,6 +7,7 @@ package main
 
 import (
 	"fmt"
+	"strings"
 
 	"github.com/hneemann/parser2/funcGen"
 	"github.com/hneemann/parser2/value"
@@ -236,6 +237,7 @@ func chainTuples() []argTuple {
 
 func run(ctx *bex.Ctx) {
 	h := newHarness()
+	runTemplates(ctx, h)
 
 	// (1) chains: the whole input space of the regrouping rule and of binary/unary constant folding
 	ctx.Space("operator-chains")
@@ -335,7 +337,170 @@ func run(ctx *bex.Ctx) {
 	ctx.SpaceDone(fmt.Sprintf("every int-sorted program of the typed grammar (constants 1,2, argument a, tick/ptick/throw/min, let/func/closures/if/switch/try/lists/maps) with <= %d nodes; a in {0,3}", maxN))
 }
 
+// checkSeq generates src on both generators ONCE and evaluates the two functions on a sequence of
+// argument values; outcomes and tick counts of every evaluation must agree, no tick during Generate,
+// and every result observed again after all later evaluations must still be what it was.
+func (h *harness) checkSeq(ctx *bex.Ctx, src string, seq []int64) {
+	ctx.Begin(func() map[string]any { return map[string]any{"src": src} })
+	var fs [2]funcGen.Func[value.Value]
+	var genErr [2]error
+	for i := range h.gens {
+		*h.cnt[i] = counters{}
+		fs[i], _, genErr[i] = h.gens[i].Generate(src, "a")
+		if h.cnt[i].tick != 0 {
+			ctx.Violate("impure host function executed during Generate", map[string]any{"src": src, "optimizer": i == 0, "seq": true}, "0 calls of tick during Generate", fmt.Sprint(h.cnt[i].tick), "")
+		}
+	}
+	if (genErr[0] != nil) != (genErr[1] != nil) {
+		ctx.Eval()
+		ctx.Violate("optimizer changes whether the program generates", map[string]any{"src": src, "seq": true}, fmt.Sprint("optimizer off: ", genErr[1]), fmt.Sprint("optimizer on: ", genErr[0]), "")
+		return
+	}
+	if genErr[0] != nil {
+		ctx.Eval()
+		ctx.Outcome("seq:generate-error/both")
+		return
+	}
+	var held [2][]value.Value
+	var first [2][]string
+	nontrivial := false
+	for _, a := range seq {
+		var out [2]vrun.Outcome
+		var ticks [2]int
+		for i := range h.gens {
+			ctx.Eval()
+			*h.cnt[i] = counters{}
+			v, err := fs[i].Eval(value.Int(a))
+			if err != nil {
+				out[i] = vrun.Outcome{Err: true, Msg: err.Error()}
+				held[i] = append(held[i], nil)
+			} else {
+				held[i] = append(held[i], v)
+				r, ferr, _ := vrun.ToRef(v)
+				if ferr != nil {
+					out[i] = vrun.Outcome{Err: true, Msg: ferr.Error()}
+				} else {
+					out[i] = vrun.Outcome{Canon: refsem.Canon(r)}
+				}
+			}
+			first[i] = append(first[i], out[i].String())
+			ticks[i] = h.cnt[i].tick
+		}
+		ctx.Outcome("seq:" + out[1].Class() + "/" + out[0].Class())
+		if !out[1].Err && out[1].Canon != "i0" {
+			nontrivial = true
+		}
+		same := out[0].Err == out[1].Err && (out[0].Err || out[0].Canon == out[1].Canon)
+		if !same {
+			ctx.Violate("optimizer changes the outcome", map[string]any{"src": src, "a": a, "sequence": seq, "seq": true}, "optimizer off: "+out[1].String(), "optimizer on: "+out[0].String(), classify0(src))
+			return
+		}
+		if ticks[0] != ticks[1] {
+			ctx.Violate("optimizer changes how often an impure function runs", map[string]any{"src": src, "a": a, "sequence": seq, "seq": true},
+				fmt.Sprintf("optimizer off: %d calls of tick", ticks[1]), fmt.Sprintf("optimizer on: %d", ticks[0]), "")
+			return
+		}
+	}
+	// results kept across later evaluations
+	for i := range h.gens {
+		for k, v := range held[i] {
+			if v == nil {
+				continue
+			}
+			r, ferr, _ := vrun.ToRef(v)
+			now := "error"
+			if ferr == nil {
+				now = refsem.Canon(r)
+			}
+			was := first[i][k]
+			if strings.HasPrefix(was, "error") {
+				was = "error"
+			}
+			if now != was {
+				ctx.Violate("a result changed after later evaluations of the same function", map[string]any{"src": src, "sequence": seq, "evaluation": k, "optimizer": i == 0, "seq": true}, was, now, "")
+				return
+			}
+		}
+	}
+	if nontrivial {
+		ctx.Nontrivial("seq|" + src)
+		if ctx.WantSample() {
+			ctx.Sample(map[string]any{"src": src, "evaluated_with_a": seq})
+		}
+	}
+}
+
+func classify0(src string) string { return "" }
+
+// runTemplates: the cooperating-sites families that the size-bounded grammar cannot reach.
+func runTemplates(ctx *bex.Ctx, h *harness) {
+	ctx.Space("higher-order-and-shared-constant-templates")
+	var idx int64
+	emit := func(src string) {
+		idx++
+		if !ctx.Mine(idx) || ctx.Expired() {
+			return
+		}
+		h.checkSeq(ctx, src, []int64{0, 1, 2, 1})
+	}
+	// (a) impure / pure counting closures used through pure higher-order built-ins, inside functions
+	// and closures (with and without captured parameters) applied to constants and to the argument
+	bodies := []string{
+		"[1,2,3].map(e->TICK(e*k)).sum()", "[1,2,3].map(e->TICK(e*k))[a]", "[1,2,3].map(e->TICK(e)).sum()+k",
+		"[1,2].accept(e->TICK(e)>k).size()", "[1,2,3].reduce((p,q)->TICK(p+q*k))", "(e->TICK(e*k)).invoke([3])",
+		"[1,2].visit(0,(v,e)->v+TICK(e*k))", "{x:1}.map((kk,v)->TICK(v*k)).x", "[2,1].order(e->TICK(e*k)).size()",
+		"[1,2].mapReduce(k,(s,e)->s+TICK(e))", "[1,2,3].indexWhere(e->TICK(e)>k)", "[1,2].number((i,e)->TICK(i+e*k)).sum()",
+		"[1,2,3].combine((p,q)->TICK(p*k+q)).sum()", "[1,2].minMax(e->TICK(e*k)).max", "[1,2,3].present(e->TICK(e)>k)",
+		"try TICK(k) catch 0", "if k>1 then TICK(k) else 0", "min(TICK(k),5)", "switch k case 2: TICK(1) default TICK(2)",
+		"[TICK(k),2].size()", "{x:TICK(k)}.x", "(j->TICK(j+k))(1)", "(j->i->TICK(i+j+k))(1)(2)", "[1,2].map(e->[e].map(d->TICK(d*k)).sum()).sum()",
+	}
+	wrappers := []string{"func f(k) BODY; f(2)+a", "func f(k) BODY; f(a)", "(k->BODY)(2)+a", "let g=k->BODY; g(2)+g(a)", "(k->(j->BODY)(k))(2)+a",
+		"func f(k) BODY; func g(j) f(j)+1; g(2)", "let k=2; BODY", "let k=a; BODY", "[2,3].map(k->BODY).sum()+a", "{h:k->BODY}.h(2)+a"}
+	for _, w := range wrappers {
+		for _, b := range bodies {
+			for _, t := range []string{"tick", "ptick"} {
+				emit(strings.ReplaceAll(w, "BODY", strings.ReplaceAll(b, "TICK", t)))
+			}
+		}
+	}
+	// (b) one constant list used in two places, one of them through a method that must work on a copy
+	consts := []string{"[3,1,2]", "[3,1,2].map(e->e)", "[2,1,3].reverse()", "[3,1].append(2)", "numbers(4).skip(1).map(e->4-e)"}
+	methods := []string{"order(e->e)[0]", "orderRev(e->e)[0]", "order(e->e*(a+1))[0]", "orderLess((p,q)->p<q)[0]", "reverse()[0]", "set(0,9)[0]", "append(a).size()",
+		"append(a)[3]", "top(2).size()", "skip(1)[0]", "map(e->e*2)[0]", "accept(e->e>1).size()", "sum()", "size()", "string().len()", "eval()[2]", "first()", "last()",
+		"combineN(2,w->w[0])[0]", "combine((p,q)->p-q)[0]", "iir(e->e,(e,l)->e+l).last()", "compact((p,q)->p=q).size()", "minMax(e->e).min", "indexWhere(e->e=1)"}
+	for _, c := range consts {
+		for _, m := range methods {
+			emit("let c=" + c + "; c[a]*100+c." + m + "*10+c[a]")
+			emit("let c=" + c + "; c." + m + "*10+c[a]")
+			emit("let c=" + c + "; c." + m)
+			emit("let c=" + c + "; [c." + m + ",c.string()].string()")
+		}
+	}
+	ctx.SpaceDone(fmt.Sprintf("%d wrappers x %d bodies x {tick, ptick} (counting closures used through pure higher-order built-ins inside functions/closures applied to constants and to the argument), %d constants x %d methods x 4 placements (one constant list used twice, once through a copying method); each function generated once and evaluated on a = 0,1,2,1; results re-observed after the later evaluations", len(wrappers), len(bodies), len(consts), len(methods)))
+}
+
 func replay(repro map[string]any) (string, bool) {
+	if isSeq, _ := repro["seq"].(bool); isSeq {
+		src, _ := repro["src"].(string)
+		var out [2][]string
+		for i := 0; i < 2; i++ {
+			c := &counters{}
+			g := vrun.NewGen(i == 0, addHost(c))
+			f, _, err := g.Generate(src, "a")
+			gen := c.tick
+			if err != nil {
+				out[i] = append(out[i], "generate error: "+err.Error())
+				continue
+			}
+			for _, a := range []int64{0, 1, 2, 1} {
+				c.tick = 0
+				o := vrun.Eval(f, []value.Value{value.Int(a)})
+				out[i] = append(out[i], fmt.Sprintf("a=%d: %s (%d ticks)", a, o.String(), c.tick))
+			}
+			out[i] = append(out[i], fmt.Sprintf("ticks during Generate: %d", gen))
+		}
+		return fmt.Sprintf("optimizer on: %v | optimizer off: %v", out[0], out[1]), fmt.Sprint(out[0]) != fmt.Sprint(out[1])
+	}
 	src, _ := repro["src"].(string)
 	args, _ := repro["args"].(string)
 	names := []string{"x"}
